@@ -29,11 +29,20 @@ import (
 
 func init() { register("c10", runC10) }
 
+// Watchdogs (never verdicts). They are generous for a healthy server (whose
+// waits end in milliseconds) but short enough that a server that really loses
+// messages does not stall the check for an hour: after c10MaxWatchdogs expired
+// watchdogs a round skips its remaining phases and is judged on what it logged.
+var (
+	c10CreditWait = 6 * time.Second
+	c10SettleWait = 10 * time.Second
+	c10MarkerWait = 10 * time.Second
+)
+
+const c10MaxWatchdogs = 2
+
 const (
 	c10Credits        = 100 // messages in flight per recipient in a stable phase (server channel: 256)
-	c10CreditWait     = 20 * time.Second
-	c10SettleWait     = 30 * time.Second
-	c10MarkerWait     = 45 * time.Second
 	c10JoinWait       = 20 * time.Second
 	c10SpoofSidPerMil = 1 // known class is sampled: ~0.1 % of the routable sends + one forced witness per session
 )
@@ -224,6 +233,7 @@ type c10Round struct {
 	events        []c10Event
 	phases        []c10Phase
 	creditTimeout map[[2]int]bool
+	watchdogs     atomic.Int64
 	inconcl       []string
 
 	gid atomic.Uint64
@@ -621,6 +631,7 @@ func (rd *c10Round) liveMembers() [][]*c10Conn {
 }
 
 func (rd *c10Round) note(s string) {
+	rd.watchdogs.Add(1)
 	rd.mu.Lock()
 	if len(rd.inconcl) < 20 {
 		rd.inconcl = append(rd.inconcl, fmt.Sprintf("round %d: %s", rd.cfg.Round, s))
@@ -991,6 +1002,12 @@ func c10PlanIDs(r *vk.Rng, s, total int) []string {
 }
 
 func c10RunRound(e *Env, cfg c10RoundCfg, agg *c10Agg) {
+	// once earlier rounds have produced violations, further rounds add nothing
+	// to the verdict; skipping them keeps a failing run short
+	if e.R.ViolationCount() > 0 && cfg.Round >= 4 {
+		e.R.Count("rounds_skipped_after_violations")
+		return
+	}
 	r := vk.NewRng(cfg.Seed)
 	rd := &c10Round{e: e, cfg: cfg, creditTimeout: map[[2]int]bool{}}
 	flags := []string{"--ws-msgs-per-sec", "0", "--ws-connects-per-min", "0", "--session-creates-per-min", "0", "--max-receivers-per-sender", "0"}
@@ -1038,9 +1055,12 @@ func c10RunRound(e *Env, cfg c10RoundCfg, agg *c10Agg) {
 	}
 	phase := 0
 	rd.runStable(r.Fork(), phase)
-	for st := 0; st < cfg.Storms; st++ {
+	for st := 0; st < cfg.Storms && rd.watchdogs.Load() < c10MaxWatchdogs; st++ {
 		phase++
 		rd.runChurn(r.Fork(), phase, st == cfg.Storms-1)
+		if rd.watchdogs.Load() >= c10MaxWatchdogs {
+			break
+		}
 		phase++
 		rd.runStable(r.Fork(), phase)
 	}
